@@ -875,14 +875,21 @@ class ScenarioGenerator:
                     firewall[(src, dest)] = dest_avail.copy()
                     continue
                 # add at least one service to allowed service
-                dest_allowed = np.random.choice(list(dest_avail))
+                # N.B. services are chosen from a list in scenario order,
+                # since the iteration order of a set of names is not
+                # reproducible between python processes
+                dest_allowed = np.random.choice(
+                    [s for s in self.services if s in dest_avail]
+                )
                 # for dest subnet choose available services upto
                 # restrictiveness limit or all services
                 dest_avail.remove(dest_allowed)
                 allowed = set()
                 allowed.add(dest_allowed)
                 while len(allowed) < restrictiveness:
-                    dest_allowed = np.random.choice(list(dest_avail))
+                    dest_allowed = np.random.choice(
+                        [s for s in self.services if s in dest_avail]
+                    )
                     if dest_allowed not in allowed:
                         allowed.add(dest_allowed)
                         dest_avail.remove(dest_allowed)
